@@ -170,7 +170,7 @@ def k_poly1305(draw):
     key = draw(st.binary(min_size=32, max_size=32))
     if kk == "edge":
         # accumulator lands in [p, 2^130) before the final reduction (the RFC 8439 A.3 corner): r = 1 and two blocks whose
-        # values (2^128 + m1) + (2^128 + m2) = 2^130 - 1 - k, k = 1..5
+        # values (2^128 + m1) + (2^128 + m2) = 2^130 - 1 - k, k = 1..5 (k <= 4: >= p; k = 5: p - 1)
         k = draw(st.integers(1, 5))
         a = draw(st.integers(0, k - 1))
         m1, m2 = (1 << 128) - 1 - a, (1 << 128) + a - k
